@@ -125,6 +125,34 @@ def run(chk):
                 except Exception as e:  # noqa: BLE001
                     oracle_bad.append(dict(info, op="first step with include_mean=False", observed=f"raised {type(e).__name__}: {str(e)[:100]}",
                                            expected="a process"))
+                # conditioning at the process's OWN inputs with a per-step noise level (no X_test: the structured branch of the
+                # quasiseparable solver), then conditioning the child again: stored covariance, child kernel, sequential = joint
+                try:
+                    dstep = rng.uniform(0.1, 0.5, size=n1)
+                    y1b = rng.normal(size=n1)
+                    lpo, co = gp1.condition(J(y1), diag=J(dstep))
+                    K11k = np.asarray(kern(J(x1), J(x1)))
+                    S11 = K11k + np.diag(d1)
+                    want_cov0 = K11k - K11k @ np.linalg.solve(S11, K11k) + np.diag(dstep)
+                    lp2o, c2o = co.condition(J(y1b), J(xt))
+                    K1t_ = np.asarray(kern(J(x1), J(xt)))
+                    Sj = np.block([[S11, K11k], [K11k, K11k + np.diag(dstep)]])
+                    rj = np.concatenate([y1 - mfun(x1), y1b - mfun(x1)])
+                    want_mean2 = mfun(xt) + np.vstack([K1t_, K1t_]).T @ np.linalg.solve(Sj, rj)
+                    want_lpj = -0.5 * rj @ np.linalg.solve(Sj, rj) - 0.5 * np.linalg.slogdet(Sj)[1] - 0.5 * len(rj) * np.log(2 * np.pi)
+                    for op, got, want in (("own inputs: stored covariance", np.asarray(co.covariance), want_cov0),
+                                          ("own inputs: stored variance", np.asarray(co.variance), np.diag(want_cov0)),
+                                          ("own inputs: child kernel + step noise = stored covariance",
+                                           np.asarray(co.kernel(J(x1), J(x1))) + np.diag(dstep), np.asarray(co.covariance)),
+                                          ("own inputs then new inputs: sequential mean = joint mean", np.asarray(c2o.loc), want_mean2),
+                                          ("own inputs then new inputs: total log probability", float(lpo) + float(lp2o), want_lpj)):
+                        ok, dv = close(np.atleast_1d(got), np.atleast_1d(want), 1e-7)
+                        if not ok:
+                            oracle_bad.append(dict(info, op=op, step_noise=dstep.tolist(), y1b=y1b.tolist(),
+                                                   expected=np.asarray(want).tolist(), observed=np.asarray(got).tolist()))
+                except Exception as e:  # noqa: BLE001
+                    oracle_bad.append(dict(info, op="conditioning at own inputs with per-step noise", observed=f"raised {type(e).__name__}: {str(e)[:100]}",
+                                           expected="a process"))
                 # three-step history on the dense solver
                 if scls is DirectSolver and n2 >= 2:
                     h = n2 // 2
